@@ -148,7 +148,8 @@ theorem splitSep_noSep_mem (s : UInt8) (k : Bytes) : âˆ€ t âˆˆ splitSep s k, s â
 
 end MW.KV
 
-namespace MW.Dec
+namespace MW.KV.DecL
+open MW.Dec
 
 theorem ofDigitsAux_append (acc : Nat) (xs : Bytes) (d : UInt8) :
     ofDigitsAux acc (xs ++ [d]) = ofDigitsAux acc xs * 10 + dval d := by
@@ -199,4 +200,4 @@ theorem render_ne_nil (n : Nat) : render n â‰  [] := by
   rw [render]
   by_cases h : n < 10 <;> simp [h]
 
-end MW.Dec
+end MW.KV.DecL
